@@ -160,7 +160,7 @@ def oplists_from_hists(pid, hists, cmaps, rng, limit):
         # query properties need live converters: only behaviours whose last operation succeeded
         ok = [hl for hl in hs if hl[1] and hl[1][0] == "ok"]
         hs = ok or hs
-    limit = int(limit * HIST_FACTOR.get(pid, 1))
+    limit = min(int(limit * HIST_FACTOR.get(pid, 1)), 1500)
     hs, n_classes, n_single = world.stratified(hs, rng, limit)
     STRATA[pid] = {"signature_sequence_classes": n_classes, "single_operation_signatures": n_single, "behaviours_selected": len(hs)}
     out = []
@@ -491,7 +491,7 @@ def random_oplists(pid, rng, n):
 
 SIZES = {
     "quick": {"hist": 100, "random": 60, "mc_timeout": 420, "tr_timeout": 900, "probe_cap": 20, "full_n": 4},
-    "thorough": {"hist": 1200, "random": 500, "mc_timeout": 3400, "tr_timeout": 3000, "probe_cap": 28, "full_n": 6},
+    "thorough": {"hist": 1000, "random": 400, "mc_timeout": 3400, "tr_timeout": 3400, "probe_cap": 28, "full_n": 6},
 }
 CMAPS = {"quick": ["ascii", "unicode", "obo", "dcolon", "case"], "thorough": ["ascii", "unicode", "obo", "dcolon", "tokens", "case"]}
 ASSUMPTIONS = [
@@ -578,7 +578,7 @@ def check(pid, tier, seed):
     sim_stats = None
     sim_ops = []
     if pid == "C10" or (tier == "thorough" and pid in ("C05", "C09", "C11", "C12")):
-        sim_h, sim_stats = world.simulate(24 if tier == "quick" else 400, 10, seed + 1, timeout=sz["mc_timeout"])
+        sim_h, sim_stats = world.simulate(24 if tier == "quick" else 160, 10, seed + 1, timeout=sz["mc_timeout"])
         for k, (h, _l, _s) in enumerate(sim_h):
             sim_ops.append(world.conc_hist(h, world.CONCRETE[CMAPS[tier][k % len(CMAPS[tier])]]))
     opts = {"probe_cap": sz["probe_cap"] if pid in QUERY_PROPS else 10, "full_n": 10 if pid == "C08" else 0,
